@@ -413,6 +413,7 @@ func run(c *enum.Ctx) {
 	enum.Parallel(16, func(sh int) {
 		nt := enum.NontrivialSet{}
 		for i := sh; i < len(cases); i += 16 {
+			c.Doing(sh, cases[i])
 			c.Eval()
 			check(c, cases[i])
 			nt.Add(enum.J(cases[i]))
@@ -466,6 +467,7 @@ func run(c *enum.Ctx) {
 		var rec func(prefix []fdef)
 		rec = func(prefix []fdef) {
 			k := kase{Kind: g.kind, Q: g.q, Prot: g.prot, L: g.L, Off: g.off, Same: g.same, Circ: g.circ, Used: g.used, Feats: append([]fdef{}, prefix...)}
+			c.Doing(ci, k)
 			c.Eval()
 			check(c, k)
 			if len(prefix) > 0 {
@@ -498,6 +500,7 @@ func run(c *enum.Ctx) {
 		for i := sh; i < len(vecs); i += 16 {
 			for _, off := range []int{0, 3} {
 				k := kase{Kind: "trim", Vals: vecs[i], Off: off}
+				c.Doing(sh, k)
 				c.Eval()
 				check(c, k)
 				nt.Add(enum.J(k))
